@@ -1104,19 +1104,23 @@ def multi_one(chk, work, spec):
     cc.observers.append(obs)
     want, want_sum = {}, dict.fromkeys(STATS, 0)
     reset_junk()
-    for rel, js in spec["files"]:
+    for occ, (rel, js) in enumerate(spec["files"]):
         case = script_load(js)
         fmt = case["format"]
         paths = []
         for side in ("ref", "l10n"):
-            path = os.path.join(root, side, rel)
+            # a relative name may occur twice (the same file name in two checkouts /
+            # modules): every occurrence has its own directory, hence its own contents
+            path = os.path.join(root, str(occ), side, rel)
             os.makedirs(os.path.dirname(path), exist_ok=True)
             write(path, render(fmt, case[side], side))
             paths.append(path)
         exp, sets, plain, _, _ = expected(case, {})
         for k in STATS:
             want_sum[k] += exp[k]
-        want[rel] = (sorted(map(str, sets["missing"])), sorted(map(str, sets["obsolete"])))
+        prev = want.get(rel, ([], []))
+        want[rel] = (sorted(prev[0] + list(map(str, sets["missing"]))),
+                     sorted(prev[1] + list(map(str, sets["obsolete"]))))
         try:
             cc.compare(File(paths[0], rel, locale="xx"), File(paths[1], rel, locale="xx"), None)
         except Exception as e:  # noqa
@@ -1143,6 +1147,11 @@ def suite_multifile(chk, work, n):
     rng = chk.rng
     for _ in range(n):
         rels = rng.sample(MULTI_PATHS, rng.randint(3, 5))
+        if rng.random() < 0.4:
+            # the same relative name again, later, with other contents (one comparer must
+            # not remember anything about a name)
+            rels.insert(rng.randint(1, len(rels)), rng.choice(rels))
+            chk.hist("files_per_comparer_repeated_name", 1)
         spec = {"files": [[rel, script_json(gen_case(rng, EXT_FMT[rel.rsplit(".", 1)[1]]))] for rel in rels]}
         chk.count(("multi", json.dumps(spec, sort_keys=True)))
         chk.hist("files_per_comparer", len(rels))
